@@ -36,7 +36,7 @@ def run(tier, seed):
                 it["ok"] = True
                 return k + 1
         return 0
-    seeds = [seed * 1000 + i for i in range(2 if quick else 10)]
+    seeds = [seed * 1000 + i for i in range(2 if quick else 30)]
     vlib.trace_rounds(c, "Trace_CmsMsg", "cmsmsg", seeds, 400 if quick else 4000, mut)
     c.cov["rule"] = ("cases = every state of the deviation machine over 13 facets; non-trivial = deviating case; traces = random facet "
                      "combinations with additional signed attributes of 110-420 bytes")
